@@ -149,7 +149,8 @@ def writers(R):
     for prop, want in wants.items():
         f = R.func(WS + '.' + prop)
         rets = [x for x in own_nodes(f.node) if isinstance(x, ast.Return)]
-        tt = bool_table(rets[0].value, atoms) if len(rets) == 1 and rets[0].value is not None else None
+        from .common import func_truth_table
+        tt = func_truth_table(R, WS + '.' + prop, atoms)
         R.ob('C08.writers', 'property %s' % prop, tt == want,
              '%s returns %s (truth table over closing/closed: %s, expected %s)' % (prop, [U(r.value) for r in rets], tt, want),
              func=f, node=(rets[0] if rets else None))
@@ -369,7 +370,8 @@ def echobound(R):
     data = c.args[1]
     lo, hi = INF, -INF
     for l in path_conditions(R, g, rd, g.entry, n):
-        a, b = interval_of(R, g.ctx, l, 'len(%s)' % U(data))
+        from .common import len_texts
+        a, b = interval_of(R, g.ctx, l, len_texts(R, g, n, data))
         lo, hi = min(lo, a), max(hi, b)
     R.ob('C08.echobound', 'Close payload bound is exactly 125', hi == 125,
          'Close frames are sent for payload lengths up to %s: a legal Close with a 123-byte reason must be sendable '
